@@ -15,7 +15,9 @@ import (
 // behaviours TLC emits from MC_Folder; the trace specification judges them with the same operators.
 
 var namePool = []string{"a", "a.txt", "a b", "a-", "a0", "b", "B", "Z", "_x", "x.y.z", "readme.md", "00", "zz", "#1", "~t",
-	"caf\xc3\xa9", "a-name-that-is-rather-long-0123456789", "c", "d", "e.bin", "f", ".h", ".hid", "..x"}
+	"caf\xc3\xa9", "a-name-that-is-rather-long-0123456789", "c", "d", "e.bin", "f", ".h", ".hid", "..x",
+	// names a user may give that look like the server's partial-data names
+	"a.incomplete", "m.incomplete", "n.incomplete.y", "x.incomplete.tar"}
 
 type gnode struct {
 	path []string
@@ -46,7 +48,8 @@ func randTree(r *rand.Rand, n, maxDepth int, big, dotParents bool) []gnode {
 		nm := namePool[r.Intn(len(namePool))]
 		p := append(append([]string{}, par...), nm)
 		k := keyOf(p)
-		if used[k] {
+		// the server keeps the partial data of x under x.incomplete: x and an entry named x.incomplete never both
+		if used[k] || used[k+".incomplete"] || (strings.HasSuffix(nm, ".incomplete") && used[strings.TrimSuffix(k, ".incomplete")]) {
 			continue
 		}
 		used[k] = true
@@ -110,6 +113,12 @@ func dlSteps(r *rand.Rand, tree []gnode, allSend bool) []step {
 			}
 		}
 		st = append(st, s)
+		if !g.dir {
+			// should the partial data of this file be on the server (left by a cut, or put there by the script), it
+			// is announced under its on-disk name: ask for it
+			ip := append(append([]string{}, g.path[:len(g.path)-1]...), g.path[len(g.path)-1]+".incomplete")
+			st = append(st, step{Op: "dlitem", Path: ints(ip), Act: 1})
+		}
 	}
 	return append(st, step{Op: "dlend"})
 }
@@ -124,7 +133,17 @@ func randScript(r *rand.Rand, big bool) script {
 	if r.Intn(2) == 0 {
 		sc := script{Mode: "down", Pre: []node{}}
 		for _, g := range tree {
-			sc.Pre = append(sc.Pre, g.node(g.size, false))
+			// leftovers of interrupted uploads: partial data alone, or next to the final name
+			x := r.Intn(100)
+			if g.dir || strings.HasSuffix(g.path[len(g.path)-1], ".incomplete") {
+				x = 99
+			}
+			if x >= 8 {
+				sc.Pre = append(sc.Pre, g.node(g.size, false))
+			}
+			if x < 16 {
+				sc.Pre = append(sc.Pre, g.node(pickOffset(r, g.size), true))
+			}
 		}
 		sc.Steps = dlSteps(r, tree, false)
 		return sc
@@ -168,6 +187,9 @@ func randScript(r *rand.Rand, big bool) script {
 	}
 	if r.Intn(5) == 0 { // something unrelated in the target
 		sc.Pre = append(sc.Pre, node{Path: ints([]string{"unrelated.dat"}), Kind: "file", Size: 1 + r.Intn(50)})
+	}
+	if r.Intn(6) == 0 { // the partial data of some earlier, interrupted upload
+		sc.Pre = append(sc.Pre, node{Path: ints([]string{"left.bin"}), Kind: "file", Size: r.Intn(40), Partial: true})
 	}
 	// streaming order: parents first; either as generated or depth-first by name (both are orders a client may use)
 	order := append([]gnode{}, tree...)
@@ -215,6 +237,10 @@ func randScript(r *rand.Rand, big bool) script {
 		}
 	}
 	sc.Steps = append(sc.Steps, step{Op: "upend"})
+	if cutAt >= 0 {
+		// the cut leaves partial data behind: download the folder as it is now, asking for everything
+		sc.Steps = append(sc.Steps, dlSteps(r, append(tree[:len(tree):len(tree)], gnode{path: []string{"left.bin"}}), true)...)
+	}
 	if cutAt < 0 {
 		// what the folder holds afterwards: a complete file that was already there keeps its length
 		final := append([]gnode{}, tree...)
@@ -223,6 +249,7 @@ func randScript(r *rand.Rand, big bool) script {
 				final[i].size = s.size
 			}
 		}
+		final = append(final, gnode{path: []string{"left.bin"}})
 		sc.Steps = append(sc.Steps, dlSteps(r, final, r.Intn(2) == 0)...)
 	}
 	return sc
